@@ -351,6 +351,10 @@ func (s *S) Run(c *scen.Ctx) {
 	c.Describe("some_calls_one_way", someOneWay)
 	c.Describe("calls_cancelled_by_caller", cancelMode)
 	c.Describe("some_calls_hash_routed", someHash)
+	nested := s.hashMode && simrt.Draw(2, "c14c.nested") == 1
+	appCtx := current.ContextWithClientCurrent(context.Background())
+	current.SetClientTimeout(appCtx, 10000)
+	c.Describe("request_contexts_derived_from_one_parent", nested)
 	gaps := []int{50, 120, 400, 1000, 1900}
 	gi := simrt.Draw(len(gaps), "c15.callgap")
 	k := 0
@@ -358,10 +362,19 @@ func (s *S) Run(c *scen.Ctx) {
 		cr := &callRec{k: k, hashType: -1}
 		payload := []byte(fmt.Sprintf("c15-%d", k))
 		ctx := current.ContextWithClientCurrent(context.Background())
+		if s.hashMode && nested {
+			// request contexts derived from one application-wide client context
+			ctx = current.ContextWithClientCurrent(appCtx)
+		}
 		if s.hashMode && simrt.Draw(8, "c14.plain") != 7 {
 			cr.hashType = simrt.Draw(2, "c14.type")
 			cr.code = hashCodes[simrt.Draw(len(hashCodes), "c14.code")]
 			current.SetClientHash(ctx, cr.hashType, cr.code)
+			if nested {
+				// another request is being prepared at the same time, from the same parent, with its own code
+				sib := current.ContextWithClientCurrent(appCtx)
+				current.SetClientHash(sib, 1-cr.hashType, hashCodes[simrt.Draw(len(hashCodes), "c14.sibcode")])
+			}
 			l, cache := tars.VerifModHashState(s.prx)
 			for _, e := range l {
 				cr.modList = append(cr.modList, e.Host)
